@@ -25,10 +25,11 @@ const (
 	LkOpenBatch
 	LkRegisterProbe
 	LkReset
+	LkReadOnly // read-only calls that open queries internally (DumpEntities, Stats, ...): never change the lock state
 )
 
 var lkNames = map[uint8]string{LkOpen: "Open", LkNext: "Next", LkStep: "Step", LkCount: "Count", LkEntityAt: "EntityAt", LkClose: "Close",
-	LkToggle: "Add/Remove(unlocked)", LkRemoveProbe: "RemoveEntity+listener-probe", LkOpenBatch: "OpenBatchQ", LkRegisterProbe: "RegisterType(after rejected registration)", LkReset: "Reset (and re-create the same entities)"}
+	LkToggle: "Add/Remove(unlocked)", LkRemoveProbe: "RemoveEntity+listener-probe", LkOpenBatch: "OpenBatchQ", LkRegisterProbe: "RegisterType(after rejected registration)", LkReset: "Reset (and re-create the same entities)", LkReadOnly: "read-only calls (DumpEntities, Stats, Count, cache look-ups)"}
 
 // LockCfg is the world-lock scenario: a fixed small world; the state is the set of open queries.
 type LockCfg struct {
@@ -185,6 +186,7 @@ func (r *LockRun) Enabled() []wx.Op {
 		ops = append(ops, wx.Op{K: LkNext, A: I}, wx.Op{K: LkStep, A: I, B: 2}, wx.Op{K: LkStep, A: I, B: 1}, wx.Op{K: LkCount, A: I},
 			wx.Op{K: LkEntityAt, A: I, B: 0}, wx.Op{K: LkEntityAt, A: I, B: int8(len(r.qs[i].seq))}, wx.Op{K: LkClose, A: I})
 	}
+	ops = append(ops, wx.Op{K: LkReadOnly})
 	if len(r.qs) == 0 {
 		ops = append(ops, wx.Op{K: LkToggle})
 		ops = append(ops, wx.Op{K: LkOpenBatch, A: 0}, wx.Op{K: LkOpenBatch, A: 1})
@@ -364,10 +366,58 @@ func (r *LockRun) Apply(op wx.Op) (res wx.Result) {
 		if w.Alive(e) {
 			return r.fail("probe:not-removed", name+": entity still alive")
 		}
+	case LkReadOnly:
+		d := w.DumpEntities()
+		if n := w.Stats().Entities.Used; len(d.Alive) != n {
+			return r.fail("readonly:dump", fmt.Sprintf("DumpEntities lists %d alive entities, Stats %d", len(d.Alive), n))
+		}
+		_ = w.Stats().String()
+		for _, e := range r.e {
+			if w.Alive(e) {
+				_, _ = w.Mask(e), w.Ids(e)
+			}
+		}
+		_ = ecs.ComponentIDs(w)
+		_ = ecs.ResourceIDs(w)
+		// an empty world next to it: a dump of nothing must not leave a lock behind either
+		w2 := ecs.NewWorld()
+		for round := 0; round < 3; round++ {
+			d2 := w2.DumpEntities()
+			if w2.IsLocked() || len(d2.Alive) != 0 {
+				return r.fail("readonly:empty-dump-lock", "DumpEntities on a world without entities leaves the world locked")
+			}
+			e := w2.NewEntity()
+			w2.RemoveEntity(e)
+			if round == 1 {
+				w2.Reset()
+			}
+		}
+		// LoadEntities is structural: refused while a (even empty) query is open on a fresh or reset world, and nothing changes
+		w3 := ecs.NewWorld()
+		for round := 0; round < 2; round++ {
+			q := w3.Query(ecs.All())
+			if !panics(func() { w3.LoadEntities(&d) }) {
+				return r.fail("load-locked:no-panic", fmt.Sprintf("LoadEntities on a locked %s world did not panic", [...]string{"fresh", "reset"}[round]))
+			}
+			q.Close()
+			if w3.IsLocked() || w3.Stats().Entities.Used != 0 {
+				return r.fail("load-locked:changed", "a rejected LoadEntities changed the world")
+			}
+			if panics(func() { w3.LoadEntities(&d) }) {
+				return r.fail("load-locked:unusable", "after a rejected LoadEntities and closing the query, LoadEntities panics")
+			}
+			if w3.Stats().Entities.Used != len(d.Alive) {
+				return r.fail("load-locked:count", "LoadEntities after a rejected attempt loaded a different number of entities")
+			}
+			w3.Reset()
+		}
 	case LkReset:
 		r.resets++
 		old := r.e
 		w.Reset()
+		if d := w.DumpEntities(); len(d.Alive) != 0 || w.IsLocked() {
+			return r.fail("reset:dump", "after Reset, DumpEntities lists entities or leaves the world locked")
+		}
 		r.seed()
 		if r.e != old {
 			return r.fail("reset:handles", "after Reset the same creations issue different handles than on the fresh world")
